@@ -41,6 +41,7 @@ TARGETS = {
     # engine T (threads): same source, ThreadSanitizer build (mode A) and ASan build (modes B, E)
     "t_tsan": dict(cxx="clang++", std="c++17", flags="-fsanitize=thread", srcs=[dict(src="threads/t_main.cpp")], libs="-lrapidcheck"),
     "t_tsan_gcc": dict(cxx="g++", std="c++20", flags="-fsanitize=thread", srcs=[dict(src="threads/t_main.cpp")], libs="-lrapidcheck"),
+    "t_tsan_std": dict(cxx="clang++", std="c++17", flags="-fsanitize=thread", cflags="-DT_STD_MUTEX", srcs=[dict(src="threads/t_main.cpp")], libs="-lrapidcheck"),
     "t_asan": dict(cxx="clang++", std="c++17", flags=SAN, srcs=[dict(src="threads/t_main.cpp")], libs="-lrapidcheck"),
 }
 
